@@ -82,6 +82,8 @@ def axes_of(case, ds):
     """(global_dimension, global_axis, model_dimension, model_axis) of a dataset."""
     d = case["datasets"][ds]
     t, s = np.asarray(d["time"], dtype=float), np.asarray(d["spectral"], dtype=float)
+    if t.size and all(float(v).is_integer() for v in t):
+        t = t.astype(np.int64)  # a time axis of whole numbers is handed over as np.arange would give it
     if case["family"] == "spectral":
         return "time", t, "spectral", s
     return "spectral", s, "time", t
